@@ -19,6 +19,7 @@
 use futures::StreamExt;
 use hx_c06::enc::{self, Attr, Node, Ty};
 use hx_c06::html::{self, Tree};
+use hx_common::sched;
 use hx_common::*;
 use leptos::either::Either;
 use leptos::oco::Oco;
@@ -431,8 +432,134 @@ fn build_cont(kind: char, ity: char, kids: &[Node]) -> Option<AnyView> {
     }
 }
 
+#[derive(Debug, Clone)]
+struct MsgErr(String);
+impl std::fmt::Display for MsgErr {
+    fn fmt(&self, f: &mut std::fmt::Formatter<'_>) -> std::fmt::Result {
+        f.write_str(&self.0)
+    }
+}
+impl std::error::Error for MsgErr {}
+
+/// the fallback of a boundary with the joined messages put where it shows them (children of the
+/// wrappers are built lazily, so the text is substituted before anything is built; a nested boundary's
+/// own fallback refers to its own messages)
+fn subst_msgs(nodes: &[Node], m: &str) -> Vec<Node> {
+    nodes
+        .iter()
+        .map(|n| match n {
+            Node::ErrMsgs => Node::text(m),
+            Node::Elem { tag, attrs, kids } => Node::Elem { tag: tag.clone(), attrs: attrs.clone(), kids: subst_msgs(kids, m) },
+            Node::Cont { kind, ity, kids } => Node::Cont { kind: *kind, ity: *ity, kids: subst_msgs(kids, m) },
+            Node::Show { cond, kids, fb } => Node::Show { cond: *cond, kids: subst_msgs(kids, m), fb: subst_msgs(fb, m) },
+            Node::Suspense { transition, kids, fb } => {
+                Node::Suspense { transition: *transition, kids: subst_msgs(kids, m), fb: subst_msgs(fb, m) }
+            }
+            Node::Suspend { delay, kids } => Node::Suspend { delay: *delay, kids: subst_msgs(kids, m) },
+            Node::Boundary { kids, fb } => Node::Boundary { kids: subst_msgs(kids, m), fb: fb.clone() },
+            other => other.clone(),
+        })
+        .collect()
+}
+
+fn join_errors(errors: ArcRwSignal<Errors>) -> String {
+    let v: Vec<String> = errors.get_untracked().into_iter().map(|(_, e)| e.to_string()).collect();
+    v.join(", ")
+}
+
+fn build_list(nodes: &[Node]) -> Option<AnyView> {
+    if nodes.len() > MAX_KIDS {
+        return None;
+    }
+    let views: Vec<AnyView> = nodes.iter().map(build).collect::<Option<_>>()?;
+    Some(StaticVec::from(views).into_any())
+}
+
+/// can every node be built (the real components build their children lazily)?
+fn buildable(nodes: &[Node]) -> bool {
+    nodes.len() <= MAX_KIDS
+        && nodes.iter().all(|n| match n {
+            Node::Show { kids, fb, .. } | Node::Boundary { kids, fb } | Node::Suspense { kids, fb, .. } => {
+                buildable(kids) && buildable(fb)
+            }
+            Node::Suspend { kids, .. } => buildable(kids),
+            Node::Elem { kids, .. } if enc::has_wrappers(kids) => buildable(kids),
+            Node::Cont { kids, ity: '*', .. } if enc::has_wrappers(kids) => buildable(kids),
+            Node::OkStr(_) | Node::Err(_) | Node::ErrMsgs | Node::ForEach { .. } | Node::Await { .. } => true,
+            other => !enc::has_wrappers(std::slice::from_ref(other)) && build(other).is_some(),
+        })
+}
+
+fn build_wrapper(n: &Node) -> Option<AnyView> {
+    Some(match n.clone() {
+        Node::Show { cond, kids, fb } => view! {
+            <Show when=move || cond fallback=move || build_list(&fb).unwrap()>{build_list(&kids).unwrap()}</Show>
+        }
+        .into_any(),
+        Node::Boundary { kids, fb } => view! {
+            <ErrorBoundary fallback=move |errors| {
+                let m = join_errors(errors);
+                build_list(&subst_msgs(&fb, &m)).unwrap()
+            }>{build_list(&kids).unwrap()}</ErrorBoundary>
+        }
+        .into_any(),
+        Node::OkStr(s) => Ok::<String, leptos::error::Error>(s).into_any(),
+        Node::Err(m) => Err::<String, leptos::error::Error>(MsgErr(m).into()).into_any(),
+        // (only reached outside any fallback: shows nothing to show)
+        Node::ErrMsgs => String::new().into_any(),
+        Node::ForEach { fam, rows } => {
+            let rows: Vec<(usize, String)> = rows.into_iter().enumerate().collect();
+            if fam == 0 {
+                view! { <For each=move || rows.clone() key=|r| r.0 children=move |r| r.1 /> }.into_any()
+            } else {
+                view! { <For each=move || rows.clone() key=|r| r.0 children=move |r| view! { <i>{r.1}</i> } /> }.into_any()
+            }
+        }
+        Node::Suspense { transition: false, kids, fb } => view! {
+            <Suspense fallback=move || build_list(&fb).unwrap()>{build_list(&kids).unwrap()}</Suspense>
+        }
+        .into_any(),
+        Node::Suspense { transition: true, kids, fb } => view! {
+            <Transition fallback=move || build_list(&fb).unwrap()>{build_list(&kids).unwrap()}</Transition>
+        }
+        .into_any(),
+        Node::Suspend { delay, kids } => Suspend::new(async move {
+            for _ in 0..delay {
+                leptos::task::tick().await;
+            }
+            build_list(&kids).unwrap()
+        })
+        .into_any(),
+        Node::Await { delay, data } => view! {
+            <Await
+                future=async move {
+                    for _ in 0..delay {
+                        leptos::task::tick().await;
+                    }
+                    data
+                }
+                let:d
+            >
+                <b>{d.clone()}</b>
+                {d.clone()}
+            </Await>
+        }
+        .into_any(),
+        _ => return None,
+    })
+}
+
 fn build(n: &Node) -> Option<AnyView> {
     match n {
+        Node::Show { .. }
+        | Node::Boundary { .. }
+        | Node::OkStr(_)
+        | Node::Err(_)
+        | Node::ErrMsgs
+        | Node::ForEach { .. }
+        | Node::Suspense { .. }
+        | Node::Suspend { .. }
+        | Node::Await { .. } => build_wrapper(n),
         Node::Text { ty, s } => text_child(ty, s),
         Node::Prim { ty, s } => prim_child(ty, s),
         Node::Unit => Some(().into_any()),
@@ -464,6 +591,86 @@ fn build(n: &Node) -> Option<AnyView> {
                 [area, base, br, col, embed, hr, img, input, link, meta, source, track, wbr])
         }
     }
+}
+
+fn new_owner() -> Owner {
+    use hydration_context::{SharedContext, SsrSharedContext};
+    let sc = Arc::new(SsrSharedContext::new()) as Arc<dyn SharedContext + Send + Sync>;
+    Owner::new_root(Some(sc))
+}
+
+fn collect_stream(mut s: impl futures::Stream<Item = String> + Unpin) -> Option<String> {
+    let mut out = String::new();
+    let w = sched::noop_waker();
+    let mut cx = std::task::Context::from_waker(&w);
+    for _ in 0..10_000 {
+        match s.poll_next_unpin(&mut cx) {
+            std::task::Poll::Ready(Some(c)) => out.push_str(&c),
+            std::task::Poll::Ready(None) => return Some(out),
+            std::task::Poll::Pending => {
+                sched::run_until_idle(1000);
+            }
+        }
+    }
+    None
+}
+
+/// one paint: the real HTML parsed by the reference parser, normalised (comments dropped, text merged)
+/// and compared with what the view is meant to show
+fn paint(html_out: &str, want: &[Node]) -> (String, bool) {
+    match html::parse(html_out) {
+        Some(t) => {
+            let n = enc::norm(&t);
+            let ok = n == enc::norm(&enc::expected(want));
+            (enc::canon(&n), ok)
+        }
+        None => ("none".into(), false),
+    }
+}
+
+/// `wview <mode> <nodes>`: the view with real leptos components through `to_html()` (s), the in-order
+/// stream (i) or the out-of-order stream with its scripts applied as the browser does (o)
+fn render_wview(mode: &str, nodes: &[Node]) -> Option<String> {
+    sched::reset();
+    let owner = new_owner();
+    let html_out = owner.with(|| {
+        let v = build_list(nodes)?;
+        match mode {
+            "s" => Some(v.to_html()),
+            "i" => collect_stream(v.to_html_stream_in_order()),
+            _ => collect_stream(v.to_html_stream_out_of_order()),
+        }
+    });
+    drop(owner);
+    sched::reset();
+    let html_out = html_out?;
+    if std::env::var("C06_DEBUG").is_ok() {
+        eprintln!("[{mode}] {html_out}");
+    }
+    let first = enc::shown(nodes, false, "");
+    let settled = enc::shown(nodes, true, "");
+    Some(match mode {
+        "s" => {
+            let (obs, ok) = paint(&html_out, &first);
+            format!("{obs} ## {}", if ok { "ok" } else { "fail first-paint" })
+        }
+        "i" => {
+            let (obs, ok) = paint(&html_out, &settled);
+            format!("{obs} ## {}", if ok { "ok" } else { "fail settled" })
+        }
+        _ => {
+            let (o1, ok1) = paint(hx_c06::stream::first_paint(&html_out), &first);
+            let (o2, ok2) = paint(&hx_c06::stream::apply_scripts(&html_out), &settled);
+            let v = if !ok1 {
+                "fail first-paint"
+            } else if !ok2 {
+                "fail settled"
+            } else {
+                "ok"
+            };
+            format!("{o1}|{o2} ## {v}")
+        }
+    })
 }
 
 fn render_view(nodes: &[Node]) -> Option<String> {
@@ -871,6 +1078,9 @@ fn op(line: &str, tags: &std::collections::HashMap<String, String>) -> String {
         },
         ["view", e] => {
             let Some(nodes) = enc::decode(e) else { return "bad-op".into() };
+            if enc::has_wrappers(&nodes) {
+                return "bad-op".into();
+            }
             match catch_unwind(AssertUnwindSafe(|| render_view(&nodes))) {
                 Ok(Some(out)) => format!("{} ## {}", hex(out.as_bytes()), verdict(&out, &enc::expected(&nodes))),
                 Ok(None) => "bad-op".into(),
@@ -894,6 +1104,17 @@ fn op(line: &str, tags: &std::collections::HashMap<String, String>) -> String {
                     format!("{} ## {}", hex(out.as_bytes()), verdict(&out, &expected_head(&title, &metas)))
                 }
                 Ok(None) => "shell-lost ## fail shell-lost".into(),
+                Err(_) => "panic ## fail panic".into(),
+            }
+        }
+        ["wview", mode, e] => {
+            let Some(nodes) = enc::decode(e) else { return "bad-op".into() };
+            if !["s", "i", "o"].contains(mode) || !buildable(&nodes) {
+                return "bad-op".into();
+            }
+            match catch_unwind(AssertUnwindSafe(|| render_wview(mode, &nodes))) {
+                Ok(Some(out)) => out,
+                Ok(None) => "bad-op".into(),
                 Err(_) => "panic ## fail panic".into(),
             }
         }
@@ -1259,6 +1480,77 @@ fn gen_doc(r: &mut Rng, c: &mut Ctx) -> String {
     format!("doc {}", items.join(" ")).trim_end().to_string()
 }
 
+/// children with leptos wrapper components among them (for `wview`)
+fn gen_wkids(r: &mut Rng, c: &mut Ctx, depth: usize, anc: &mut Vec<&'static str>, max: usize, in_susp: bool, in_fb: bool) -> Vec<Node> {
+    let n = r.range(1, max);
+    let mut out = vec![];
+    for _ in 0..n {
+        let pick = if depth == 0 { r.below(4) } else { r.below(12) };
+        match pick {
+            0 | 1 => out.push(gen_text(r, c)),
+            2 => out.extend(gen_kids(r, c, depth.min(1), anc, 1)),
+            3 => {
+                if in_fb && r.chance(1, 2) {
+                    out.push(Node::ErrMsgs)
+                } else {
+                    out.push(Node::OkStr(gen_str(r, c)))
+                }
+            }
+            4 => {
+                // an ordinary element around more wrappers
+                let tag: &'static str = pk(r, &["div", "span", "p", "b", "section", "x-foo"]);
+                let a: Vec<&str> = anc.iter().rev().copied().collect();
+                if !html::nest_ok(tag, &a) {
+                    continue;
+                }
+                anc.push(tag);
+                let kids = gen_wkids(r, c, depth - 1, anc, 3, in_susp, in_fb);
+                anc.pop();
+                out.push(Node::Elem { tag: tag.into(), attrs: gen_attrs(r, c, false), kids });
+            }
+            5 => out.push(Node::Show {
+                cond: r.chance(1, 2),
+                kids: gen_wkids(r, c, depth - 1, anc, 2, in_susp, in_fb),
+                fb: gen_wkids(r, c, depth - 1, anc, 2, in_susp, in_fb),
+            }),
+            6 | 7 => {
+                // a boundary; its children throw in half of the cases (one error: the order of several is unspecified)
+                let mut kids = gen_wkids(r, c, depth - 1, anc, 2, in_susp, false);
+                if r.chance(1, 2) {
+                    let at = r.below(kids.len() + 1);
+                    kids.insert(at, Node::Err(gen_str(r, c)));
+                }
+                // (a boundary's fallback is rendered synchronously even in a stream: no <Suspense> in it)
+                let mut fb = gen_wkids(r, c, depth - 1, anc, 2, true, true);
+                if r.chance(2, 3) {
+                    let at = r.below(fb.len() + 1);
+                    fb.insert(at, Node::ErrMsgs);
+                }
+                out.push(Node::Boundary { kids, fb });
+            }
+            8 => out.push(Node::ForEach { fam: r.below(2) as u8, rows: (0..r.below(4)).map(|_| gen_str(r, c)).collect() }),
+            9 | 10 if !in_susp => {
+                let mut kids = gen_wkids(r, c, depth - 1, anc, 2, true, in_fb);
+                for _ in 0..r.range(1, 2) {
+                    let at = r.below(kids.len() + 1);
+                    let inner = gen_wkids(r, c, depth.saturating_sub(2), anc, 2, true, in_fb)
+                        .into_iter()
+                        .filter(|n| !matches!(n, Node::Err(_)))
+                        .collect();
+                    kids.insert(at, Node::Suspend { delay: r.below(3) as u8, kids: inner });
+                }
+                kids.truncate(MAX_KIDS);
+                let fb = gen_wkids(r, c, 0, anc, 2, true, in_fb);
+                out.push(Node::Suspense { transition: r.chance(1, 3), kids, fb });
+            }
+            11 if !in_susp => out.push(Node::Await { delay: r.below(3) as u8, data: gen_str(r, c) }),
+            _ => out.push(gen_text(r, c)),
+        }
+    }
+    out.truncate(MAX_KIDS);
+    out
+}
+
 fn gen_kids(r: &mut Rng, c: &mut Ctx, depth: usize, anc: &mut Vec<&'static str>, max: usize) -> Vec<Node> {
     let n = r.below(max + 1);
     let mut out: Vec<Node> = vec![];
@@ -1469,6 +1761,28 @@ fn small_scope() -> Vec<String> {
             out.push(format!("case ssi{i}-{k2}\nview {}", enc::encode(&v)));
             k2 += 1;
         }
+        // leptos wrapper components around the atom, through to_html / in-order / out-of-order
+        let ok = |x: &str| Node::OkStr(x.into());
+        let er = |x: &str| Node::Err(x.into());
+        let sus = |d: u8, kids: Vec<Node>| Node::Suspend { delay: d, kids };
+        let wviews: Vec<Vec<Node>> = vec![
+            vec![el("p", vec![], vec![t(), Node::Show { cond: true, kids: vec![t()], fb: vec![Node::text("fb")] }, Node::Show { cond: false, kids: vec![Node::text("k")], fb: vec![t(), el("b", vec![], vec![t()])] }, t()])],
+            vec![el("p", vec![], vec![Node::Boundary { kids: vec![ok(&s)], fb: vec![Node::ErrMsgs] }, t()])],
+            vec![el("p", vec![], vec![t(), Node::Boundary { kids: vec![er(&s)], fb: vec![Node::ErrMsgs] }, t()])],
+            vec![el("div", vec![], vec![Node::Boundary { kids: vec![el("b", vec![], vec![er(&s)]), Node::text("tail")], fb: vec![Node::text("Errors: "), Node::ErrMsgs, el("span", vec![Attr::Plain("title".into(), s.clone(), Ty::string())], vec![Node::ErrMsgs])] }])],
+            vec![Node::Boundary { kids: vec![Node::Show { cond: true, kids: vec![er(&s)], fb: vec![] }], fb: vec![t(), Node::ErrMsgs] }, t()],
+            vec![el("p", vec![], vec![t(), Node::ForEach { fam: 0, rows: vec![s.clone(), "k".into(), s.clone()] }, t()]), el("div", vec![], vec![Node::ForEach { fam: 1, rows: vec![s.clone(), s.clone()] }])],
+            vec![el("p", vec![], vec![t(), Node::Suspense { transition: false, kids: vec![sus(0, vec![t()]), el("b", vec![], vec![t()]), sus(1, vec![t(), t()])], fb: vec![t()] }, t()])],
+            vec![el("div", vec![], vec![Node::Suspense { transition: true, kids: vec![Node::text("k"), sus(2, vec![el("i", vec![], vec![t()])])], fb: vec![el("i", vec![], vec![t()]), t()] }])],
+            vec![el("div", vec![], vec![Node::Await { delay: 0, data: s.clone() }, Node::Await { delay: 1, data: s.clone() }])],
+            vec![el("div", vec![], vec![Node::Suspense { transition: false, kids: vec![Node::Boundary { kids: vec![er(&s)], fb: vec![Node::ErrMsgs] }, sus(1, vec![Node::Show { cond: false, kids: vec![], fb: vec![t()] }])], fb: vec![Node::Boundary { kids: vec![er(&s)], fb: vec![Node::ErrMsgs, t()] }] }])],
+        ];
+        for (k4, v) in wviews.iter().enumerate() {
+            let e = enc::encode(v);
+            for m in ["s", "i", "o"] {
+                out.push(format!("case ssw{i}-{k4}{m}\nwview {m} {e}"));
+            }
+        }
         // every string leptos_meta injects into <html>, <head>, <body>
         let h = enc::hx(&s);
         let docs = [
@@ -1535,7 +1849,21 @@ fn gen(seed: u64, n: usize, path: &str) -> std::io::Result<()> {
     for i in 0..n {
         let mut c = Ctx { raw_text: r.chance(1, 6), dirty: r.chance(1, 8) };
         writeln!(f, "case {i}")?;
-        if r.chance(1, 6) {
+        if r.chance(1, 5) {
+            // leptos wrapper components: the same view through the three rendering entry points
+            c.raw_text = false;
+            let mut anc: Vec<&'static str> = vec![];
+            let mut v = gen_wkids(&mut r, &mut c, 3, &mut anc, 3, false, false);
+            if v.is_empty() {
+                v.push(gen_text(&mut r, &mut c));
+            }
+            let e = enc::encode(&v);
+            writeln!(f, "wview s {e}")?;
+            for m in ["i", "o"] {
+                writeln!(f, "case {i}{m}")?;
+                writeln!(f, "wview {m} {e}")?;
+            }
+        } else if r.chance(1, 6) {
             let line = gen_doc(&mut r, &mut c);
             writeln!(f, "{line}")?;
         } else {
@@ -1639,6 +1967,53 @@ fn node_tags(nodes: &[Node], depth: usize, in_raw: bool, t: &mut Tags) {
                 node_tags(kids, depth + 1, in_raw, t);
                 prev_text = false;
             }
+            Node::Show { cond, kids, fb } => {
+                t.insert(if *cond { "show:children".into() } else { "show:fallback".into() });
+                node_tags(kids, depth, in_raw, t);
+                node_tags(fb, depth, in_raw, t);
+                prev_text = false;
+            }
+            Node::Boundary { kids, fb } => {
+                t.insert("error-boundary".into());
+                node_tags(kids, depth, in_raw, t);
+                node_tags(fb, depth, in_raw, t);
+                prev_text = false;
+            }
+            Node::OkStr(s) => {
+                t.insert("result:ok".into());
+                str_tags(s, t);
+                prev_text = true;
+            }
+            Node::Err(s) => {
+                t.insert("result:err".into());
+                str_tags(s, t);
+                prev_text = false;
+            }
+            Node::ErrMsgs => {
+                t.insert("error-messages".into());
+                prev_text = true;
+            }
+            Node::ForEach { fam, rows } => {
+                t.insert(format!("for:{fam}"));
+                rows.iter().for_each(|r| str_tags(r, t));
+                prev_text = false;
+            }
+            Node::Suspense { transition, kids, fb } => {
+                t.insert(if *transition { "transition".into() } else { "suspense".into() });
+                node_tags(kids, depth, in_raw, t);
+                node_tags(fb, depth, in_raw, t);
+                prev_text = false;
+            }
+            Node::Suspend { delay, kids } => {
+                t.insert(format!("suspend:{delay}"));
+                node_tags(kids, depth, in_raw, t);
+                prev_text = false;
+            }
+            Node::Await { delay, data } => {
+                t.insert(format!("await:{delay}"));
+                str_tags(data, t);
+                prev_text = false;
+            }
             Node::Elem { tag, attrs, kids } => {
                 prev_text = false;
                 t.insert(format!("depth{}", depth + 1));
@@ -1691,6 +2066,12 @@ fn tags_of_op(w: &[&str]) -> String {
     let mut t = Tags::new();
     match w {
         ["view", e] => {
+            if let Some(nodes) = enc::decode(e) {
+                node_tags(&nodes, 0, false, &mut t);
+            }
+        }
+        ["wview", mode, e] => {
+            t.insert(format!("wview:{mode}"));
             if let Some(nodes) = enc::decode(e) {
                 node_tags(&nodes, 0, false, &mut t);
             }
@@ -1770,6 +2151,7 @@ fn main() {
         Cmd::Gen { seed, n, ops, .. } => gen(seed, n, &ops).unwrap(),
         Cmd::Run { ops, out } => {
             quiet_panics();
+            sched::install();
             // first pass: tags of a case are derived from its op (positions and shapes hit)
             let mut tags = std::collections::HashMap::new();
             let text = std::fs::read_to_string(&ops).unwrap();
